@@ -625,6 +625,15 @@ func OrWithInnerFork(inner string, dflt bool) *prog.Program {
 	} else {
 		t := b.AddNode("task", "")
 		g := b.AddNode("and", "")
+		if inner == "taskfirstfalse" {
+			// the activity's own (first) flow is not taken: its token is consumed, both flows that
+			// go on are new ones
+			dead := b.AddNode("task", "")
+			de := b.AddNode("end", "")
+			b.Connect(t, dead, prog.Cond{K: "false"})
+			b.Connect(dead, de, prog.Cond{})
+			b.P.Tags = append(b.P.Tags, "fork-parent-consumed", "sentinel")
+		}
 		for i := 0; i < 2; i++ {
 			u := b.AddNode("task", "")
 			b.Connect(t, u, prog.Cond{})
